@@ -76,6 +76,10 @@ def destroy_inst(tier, clause_recreate=True):
          '  $ROOT(&sb);\n')
     return Inst('c14_destroy_sandbox', 'rlbox_sandbox<vsbx>& s', 's.destroy_sandbox();', cl, h, leaves=['dynamic_check'], prop=PROP, root_name='destroy_sandbox',
                 tier=tier, pre=GH + ' unsigned long g_pos; unsigned char g_name;\n', facts=FACTS, opts={'map_str_keys': True},
+                post_protos=('_Bool vstd_strmap_empty(const struct M_map_strk_voidp *m)\n'
+                             '__CPROVER_requires(__CPROVER_r_ok(m, sizeof(*m)))\n'
+                             '__CPROVER_ensures(__CPROVER_return_value ==> !m->present[g_name]) /* empty() is consistent with the witness name */\n'
+                             '__CPROVER_assigns();\n'), extra_replace=['vstd_strmap_empty'],
                 note='std::find / vector::erase through the M-vec contracts; symbol caches as array views over name ids; vsbx::impl_destroy_sandbox inline')
 
 
